@@ -29,24 +29,30 @@ P = {
  'C06': ("On the grammar model REGENERATED from /repo's .pest on each run: the token rules int, number, string, member_name_shorthand, function_name accept every lexeme of "
          "the RFC token grammar (RfcLex, transcribed from Appendix A: all number formats, both quote styles, all escapes incl. lower-case hex and surrogate pairs), in "
          "every parsing context (PEG denotation framework). The full statement C06_statement is not proved; the segment/filter skeleton is decided by correspondence "
-         "(real parser = model parser) and oracle search (ABNF recogniser + validity) over ABNF-derived sentences.", "5.6", "layered proof on translated grammar + ABNF-oracle differential search"),
+         "(real parser = model parser) and oracle search (ABNF recogniser + validity) over ABNF-derived sentences, syntax look-alike string bodies and long queries (repetition at every starred "
+         "position of the ABNF, up to 3 000 / 10 000 elements, judged by the oracle on the long string).", "5.6", "layered proof on translated grammar + ABNF-oracle differential search"),
  'C07': ("Conversely the token rules accept NOTHING but RFC tokens (no blanks inside, leading zeros, -0, lone surrogates, bad escapes). For ALL strings and all pair "
          "trees: C07_partial_typing (an accepted query is well-typed per RFC 2.4.3) and C07_partial_int_range (its selector/slice/singular-query integers are in the "
-         "I-JSON range). Full statement not proved; single-edit mutants of valid sentences are classified by the ABNF+validity oracle and must be rejected by the real parser.", "5.7", "layered proof on translated grammar + mutant search"),
+         "I-JSON range); C07_partial_outer_blanks (a blank before `$` or after the last segment is rejected, whatever lies between). Full statement not proved; single-edit mutants of valid sentences are classified by the ABNF+validity oracle and must be rejected by the real parser.", "5.7", "layered proof on translated grammar + mutant search"),
  'C08': ("eval_never_err (and parsed_never_errs on strings); slice loops are well-founded recursions, slice_iterations_bounded <= len; slice_no_overflow/index_no_overflow: "
          "with every i64 operation checked, no overflow for integers in the I-JSON range and lengths <= 2^62. Panics/aborts/timeouts of the real code are observed by "
-         "isolated workers (overflow checks on): integer extremes, programmatically built ASTs, nesting ladders. Open known findings: stack exhaustion at ~10^4 nested "
+         "isolated workers (overflow checks on): integer extremes, programmatically built ASTs, multi-byte text next to syntax errors, long queries, and ladders run on an "
+         "UNOPTIMISED second build: nesting, 19 wide-document shapes (up to 200 000 / 10^6 elements), long paths. Open known findings: stack exhaustion at 10^3-10^4 nested "
          "parentheses; exponential backtracking on nested function calls with an unparsable innermost argument.", "5.8",
          "totality + invariants in Lean; runtime faults by isolated-worker correspondence"),
  'C09': ("walk_spec/put_get/frame: lens laws of reference/reference_mut over name/index steps for all documents, step lists and values; the string->steps link (parser on "
-         "Normalized Paths) is carried by correspondence on the Normalized Path of every node of generated documents.", "5.9", "structural induction (lens laws) + correspondence"),
- 'C10': ("length/count/value = RFC definitions for all arguments (length_spec, count_spec, value_spec, fn_value, fn_logical relative to a regex engine); match/search against a "
-         "modelled regex dialect (partial: engine modelled, not verified).", "5.10", "proof for value functions; dialect model + correspondence for regex"),
+         "Normalized Paths) is carried by correspondence on the Normalized Path of every node of generated documents, on paths fed back from queries, on update sequences, and on "
+         "paths of up to 6 000 (10 000) segments into documents built in code.", "5.9", "structural induction (lens laws) + correspondence"),
+ 'C10': ("length/count/value = RFC definitions for all arguments (length_spec, count_spec, value_spec, fn_value, fn_logical relative to a regex engine); match/search: the model's matcher is proved to decide "
+         "the textbook semantics (matcher_decides: sound, complete, fuel sufficient; match_is_whole_string: the anchored expression matches iff the ENTIRE string is in the "
+         "language; search_is_some_substring: iff some substring is). Partial in one respect: the dialect parser (pattern text -> expression) and the claim that the regex "
+         "crate computes the same are validated by correspondence, not proved.", "5.10", "proof for value functions and for the matcher against an inductive language definition; correspondence with the regex crate"),
  'C11': ("sliceIndices_spec: model of the Rust slice loops = RFC 9535 2.3.4.2.2 pseudocode for ALL start/end/step/len; implIndex_spec; in-range, progression, maximality, "
          "step 0 = empty. Exhaustive correspondence over bounds x lengths + extremes.", "5.11", "fun_induction + omega; exhaustive small-scope correspondence"),
  'C12': ("Thin theorem: the model's entry points are projections of one result, parse-once = parse-each, a session over the model is stateless. Purity of the REAL code "
-         "is carried by the history/thread correspondence (sequences, repetitions, N threads on shared Arc, document snapshot). Labelled partial: data races and "
-         "address-keyed caches cannot be exhibited by the model.", "5.12", "projection theorems + history/thread differential runs"),
+         "is carried by (i) a source obligation checked on the text of /repo/src at every run: no mutable static, thread-local, interior mutability, unsafe, clock, "
+         "environment or file access - safe Rust without these is a function of its arguments; (ii) the history/thread correspondence (sequences, repetitions, fresh-process "
+         "reference, N threads on shared Arc, document snapshot). Labelled partial: data races and address-keyed caches cannot be exhibited by the model.", "5.12", "projection theorems + history/thread differential runs"),
  'C13': ("name_spellings: all escape-free spellings of a member name select the same node; number_spellings: int/float spellings compare alike under all operators; "
          "same_spec_same_nodes. String-level blank-space invariance by metamorphic correspondence (6 spellings per abstract query).", "5.13",
          "AST-level proof + metamorphic correspondence"),
